@@ -64,17 +64,22 @@ def insert_dequant(
 
   # update the original consumers of the op to take the dequant op,
   # and find the first consumer of the new tensor
-  first_consumer_id = min(transformation_input.consumers)
+  # consumer id -1 stands for the graph output, it is not an operator position
+  first_consumer_id = len(transformation_input.subgraph.operators)
   for consumer_id in transformation_input.consumers:
+    if consumer_id < 0:
+      continue
+    first_consumer_id = min(first_consumer_id, consumer_id)
     op = transformation_input.subgraph.operators[consumer_id]
     for input_idx in range(len(op.inputs)):
       if op.inputs[input_idx] == transformation_input.tensor_id:
         op.inputs[input_idx] = new_tensor_id
 
-  # if the output is also an output to the graph, we need to update that as well
-  for output_idx, output in enumerate(transformation_input.subgraph.outputs):
-    if output == transformation_input.tensor_id:
-      transformation_input.subgraph.outputs[output_idx] = new_tensor_id
+  # if the graph output is among the consumers, we need to update that as well
+  if -1 in transformation_input.consumers:
+    for output_idx, output in enumerate(transformation_input.subgraph.outputs):
+      if output == transformation_input.tensor_id:
+        transformation_input.subgraph.outputs[output_idx] = new_tensor_id
 
   # add dequant into the subgraph op list,
   # must insert the op right before it's first consumer
